@@ -817,6 +817,9 @@ class Interp:
                 self.raise_(AttributeError, str(e), node=node)
         # instance of a user class: emulate so that methods are interpreted and descriptors see overlays
         cls = type(obj)
+        if (cls.__module__ or '').split('.')[0] in ('pyvc', 'contracts', 'spec', 'lemmas'):
+            # a model object of the verifier itself: a missing attribute is a gap of the model, not an AttributeError of the code
+            raise Unsupported(f'attribute {name!r} of the model object {cls.__name__} is not modelled')
         ca = _static_lookup(cls, name)
         inst = getattr(obj, '__dict__', {})
         if ca is not _MISSING and _is_data_descriptor(ca) and _in_repo_class(type(ca)):
